@@ -14,7 +14,7 @@ FUNCTIONS = ['emd.sift.get_next_imf_mask', 'emd.sift.mask_sift', 'emd.sift.get_m
              'emd.sift.get_next_imf (shared with the specification; its own semantics are C04)']
 BOUNDS = {
     'quick': 'N = 6 symbolic samples in [-8,8] (N = 7 for one ratio_imf configuration: on 6 samples the amplitude of the second mask can never matter); get_next_imf_mask vs the masking rule for mask frequencies {0.3, 0.125}, symbolic amplitude in (0,4] '
-             '(1 phase) and amplitude 0.5 (2 phases; 3 phases on 2 workers, time-boxed), 1..2 worker processes; mask_sift: frequency ladder z/step^i for step factors {2,3}, user lists, '
+             '(1 phase) and amplitude 0.5 (2 phases; 3 phases on 2 workers, time-boxed), 1..2 worker processes, default and non-default envelope/extrema options (pchip at N = 6, pad_width 1 at N = 7: on 6 samples the pad width never matters); mask_sift: frequency ladder z/step^i for step factors {2,3}, user lists, '
              'zero-crossing source, amplitude modes {abs, ratio_sig, ratio_imf} with scalar and per-IMF amplitudes, returned frequencies; zero amplitude',
     'thorough': '3 and 4 phases, more frequencies, 3 IMFs, amplitude arrays in every mode',
 }
@@ -37,7 +37,12 @@ def configs(tier):
     out = [('gnim-z0.3-1phase-ampsym-P1', {'kind': 'gnim', 'N': 6, 'z': 0.3, 'nphases': 1, 'amp': 'sym', 'P': 1}),
            ('gnim-z0.125-2phase-amp0.5-P2', {'kind': 'gnim', 'N': 6, 'z': 0.125, 'nphases': 2, 'amp': 0.5, 'P': 2, '_budget_s': 40 if q else 400}),
            ('gnim-z0.3-3phase-amp0.5-P2', {'kind': 'gnim', 'N': 6, 'z': 0.3, 'nphases': 3, 'amp': 0.5, 'P': 2, '_budget_s': 40 if q else 400}),
-           ('zeroamp-z0.3', {'kind': 'zero', 'N': 6, 'z': 0.3, 'nphases': 2})]
+           ('zeroamp-z0.3', {'kind': 'zero', 'N': 6, 'z': 0.3, 'nphases': 2}),
+           # non-default envelope / extrema options must govern the masked extractions on every schedule (serial and pooled)
+           ('gnim-z0.3-1phase-amp0.5-P1-padwidth1-N7', {'kind': 'gnim', 'N': 7, 'z': 0.3, 'nphases': 1, 'amp': 0.5, 'P': 1,
+                                                        'ext_opts': {'pad_width': 1}, '_budget_s': 30 if q else 200}),
+           ('gnim-z0.3-1phase-amp0.5-P1-pchip', {'kind': 'gnim', 'N': 6, 'z': 0.3, 'nphases': 1, 'amp': 0.5, 'P': 1,
+                                                 'env_opts': {'interp_method': 'pchip'}, '_budget_s': 30 if q else 300})]
     if not q:
         out += [('gnim-z0.05-3phase-amp1-P3', {'kind': 'gnim', 'N': 6, 'z': 0.05, 'nphases': 3, 'amp': 1.0, 'P': 3, '_budget_s': 400}),
                 ('gnim-z0.3-4phase-amp0.25-P1', {'kind': 'gnim', 'N': 6, 'z': 0.3, 'nphases': 4, 'amp': 0.25, 'P': 1, '_budget_s': 400})]
@@ -53,7 +58,7 @@ def configs(tier):
     return out
 
 
-def spec_masked(h, X, N, z, amp, nphases):
+def spec_masked(h, X, N, z, amp, nphases, **stage_opts):
     """documented rule: average over phases of get_next_imf(X + mask) - mask; flag = any"""
     t = np.arange(N)
     outs = []
@@ -61,7 +66,7 @@ def spec_masked(h, X, N, z, amp, nphases):
     for j in range(nphases):
         ph = 2 * math.pi * j / nphases
         m = np.cos(2 * math.pi * z * t + ph) * amp
-        r, f = S.get_next_imf((X + m).reshape(N, 1), **IMF_OPTS)
+        r, f = S.get_next_imf((X + m).reshape(N, 1), **IMF_OPTS, **stage_opts)
         outs.append(np.asarray(r)[:, 0] - m)
         flags.append(bool(f))
     acc = outs[0]
@@ -106,8 +111,13 @@ def harness(h):
 def gnim(h, X, N):
     z, nph, P = h.params['z'], h.params['nphases'], h.params['P']
     amp = h.real('amp', lo=0, hi=4, lo_open=True) if h.params['amp'] == 'sym' else h.params['amp']
-    got, flag = S.get_next_imf_mask(X, z, amp, nphases=nph, nprocesses=P, imf_opts=dict(IMF_OPTS))
-    want, wflag = spec_masked(h, X, N, z, amp, nph)
+    stage = {}
+    if h.params.get('env_opts'):
+        stage['envelope_opts'] = dict(h.params['env_opts'])
+    if h.params.get('ext_opts'):
+        stage['extrema_opts'] = dict(h.params['ext_opts'])
+    got, flag = S.get_next_imf_mask(X, z, amp, nphases=nph, nprocesses=P, imf_opts=dict(IMF_OPTS), **{k: dict(v) for k, v in stage.items()})
+    want, wflag = spec_masked(h, X, N, z, amp, nph, **stage)
     got = np.asarray(got)
     h.note('gnim:extracted')
     h.observe('masked_imf', got)
